@@ -124,6 +124,8 @@ def build_jobs(tier, rep):
     if q and len(jobs) > 380000:
         jobs = gen.sample(jobs, 380000, C.SEED + 1)
     jobs += must
+    tw = gen.twins(gen.sample(pool, 20000 if q else 200000, C.SEED + 2, keep_short=1500), C.SEED, per_doc=2)
+    jobs += [(cfgs[k % len(cfgs)], d) for k, d in enumerate(tw)]
     rep.cov["bounds"] = {"L1": len(l1), "with_verbatim_or_markup_shapes": len(pool), "executed": len(jobs)}
     rep.cov["exhaustive"] = False
     return jobs
